@@ -137,6 +137,12 @@ class EarliestStartTimeObserver(FeatureObserver):
         self._recompute_earliest_start_times()
         self.initialize_features()
 
+    def reset(self):
+        """Recomputes the earliest start times for the (reset) dispatcher and
+        resets the features."""
+        self._recompute_earliest_start_times()
+        super().reset()
+
     def _recompute_earliest_start_times(self):
         """Recomputes the earliest start times of the unscheduled operations
         from the current state of the dispatcher.
